@@ -36,7 +36,7 @@ def decl_xml(d):
     return '<text:user-field-decl office:value-type="%s" office:%s="%s" text:name="%s"%s/>' % (
         d['type'], TYPES[d['type']], P.xml_attr(d['value']), P.xml_attr(d['name']), extra)
 
-def build_package(rng, decls, header_decls):
+def build_package(rng, decls, header_decls, mimetype=P.MT_TEXT):
     body = '<text:user-field-decls>%s</text:user-field-decls><text:p text:style-name="P1">Before <text:user-field-get text:name="f0">x</text:user-field-get> after &amp; &lt;</text:p><text:p/>' % ''.join(decl_xml(d) for d in decls)
     master = ''
     if header_decls:
@@ -45,7 +45,7 @@ def build_package(rng, decls, header_decls):
     auto = '<style:style style:name="P1" style:family="paragraph"><style:paragraph-properties fo:text-align="center"/></style:style>'
     sauto = '<style:page-layout style:name="pm1"><style:page-layout-properties fo:page-width="21cm"/></style:page-layout>' if header_decls else ''
     extra = [('Pictures/p.png', b'\x89PNG fake bytes', 'image/png'), ('Thumbnails/thumbnail.png', b'thumb', ''), ('extra/data.bin', b'\x00\x01\x02', 'application/octet-stream')]
-    return P.simple_package(body, autostyles=auto, masterstyles=master, styles_auto=sauto, extra_members=extra)
+    return P.simple_package(body, autostyles=auto, masterstyles=master, styles_auto=sauto, extra_members=extra, mimetype=mimetype)
 
 def listing(data):
     from odf.userfield import UserFields
@@ -70,7 +70,9 @@ def run(ctx):
         decls = gen_decls(ctx.rng)
         header = [dict(x) for x in decls if x['name'] == 'shared'][:1] if ctx.rng.random() < 0.4 else []
         if header: header[0]['value'] = ctx.rng.choice(SAMPLE[header[0]['type']])
-        src = build_package(ctx.rng, decls, header)
+        # every kind of text document in turn: a template stays a template, a master document a master document
+        mt = ['application/vnd.oasis.opendocument.text', 'application/vnd.oasis.opendocument.text-template', 'application/vnd.oasis.opendocument.text-master', 'application/vnd.oasis.opendocument.text-web'][i % 4]
+        src = build_package(ctx.rng, decls, header, mt)
         alld = decls + header            # load order: content.xml before styles.xml
         names = sorted(set(x['name'] for x in alld))
         data = {}
@@ -115,7 +117,7 @@ def run(ctx):
             a = X.expat_parse(ref['members'][part]); b = X.expat_parse(upd['members'].get(part, b''))
             if a[0] != 'ok' or b[0] != 'ok' or strip_decl_values(a[1]) != strip_decl_values(b[1]):
                 ctx.violation('rest-of-document-changed', dict(case, part=part), 'differs from plain load+save', 'same infoset outside the value attributes', {'part': part})
-        for name in ('Pictures/p.png', 'Thumbnails/thumbnail.png', 'extra/data.bin'):
+        for name in ('mimetype', 'Pictures/p.png', 'Thumbnails/thumbnail.png', 'extra/data.bin'):
             if upd['members'].get(name) != ref['members'].get(name):
                 ctx.violation('member-changed', dict(case, member=name), upd['members'].get(name), ref['members'].get(name), {'member': name})
         if sorted(upd['manifest'] or []) != sorted(ref['manifest'] or []):
